@@ -50,6 +50,8 @@ int main(int argc, char** argv) {
     ip().base = fs.base();
     // families: 0..6 general; 7: growth percentile boundary (many siblings); 8: percent threshold boundary of swap usage
     int family = scn % 9;
+    // ONE meminfo location for the whole process, rewritten for every scenario: a snapshot is per load, not per path
+    const std::string meminfoPath = std::string(getenv("VERIF_TMP") ? getenv("VERIF_TMP") : "/tmp") + "/rank.meminfo." + std::to_string(getpid());
     std::string plugin = family == 7 ? "kill_by_memory_size_or_growth" : family == 8 ? "kill_by_swap_usage" : plugins[family];
     long long U = r.pick(std::vector<long long>{4096, 1048576, 67108864LL, 4294971392LL}); // bytes per unit
     if (plugin == "kill_by_swap_usage") U = r.pick(std::vector<long long>{1048576, 67108864LL});
@@ -69,14 +71,14 @@ int main(int argc, char** argv) {
     } else if (plugin == "kill_by_swap_usage") {
       thr = r.pick(std::vector<int>{0, 1, 5, 10, 25}); biased = r.chance(50);
       // SwapTotal = 100 units (6.25 GiB at 64 MiB per unit: above 2^32), MemTotal = 200 units
-      fs.writeAbs(fs.base() + "/meminfo", "MemTotal: " + std::to_string(200 * U / 1024) + " kB\nSwapTotal: " + std::to_string(100 * U / 1024) + " kB\n");
-      args["meminfo_location"] = fs.base() + "/meminfo";
+      fs.writeAbs(meminfoPath, "MemTotal: " + std::to_string(200 * U / 1024) + " kB\nSwapTotal: " + std::to_string(100 * U / 1024) + " kB\n");
+      args["meminfo_location"] = meminfoPath;
       args["threshold"] = r.chance(50) ? std::to_string(thr) + "%" : (U == 1048576 ? std::to_string(thr) : std::to_string(thr * (U / 1048576)) + "M");
       if (family == 8) {
         // SwapTotal is not a multiple of 100 bytes; usages sit exactly at / next to pct% of it
         pctB = r.pick(std::vector<int>{7, 25, 33, 50, 99}); biased = false; args.erase("biased_swap_kill");
         swapTotalB = 2097148LL * 1024 + 4096LL * r.upto(50);
-        fs.writeAbs(fs.base() + "/meminfo", "MemTotal: 8388608 kB\nSwapTotal: " + std::to_string(swapTotalB / 1024) + " kB\n");
+        fs.writeAbs(meminfoPath, "MemTotal: 8388608 kB\nSwapTotal: " + std::to_string(swapTotalB / 1024) + " kB\n");
         args["threshold"] = std::to_string(pctB) + "%";
         thr = 1000;
       }
@@ -119,6 +121,7 @@ int main(int argc, char** argv) {
     }
     std::string first;
     bool gotFirst = false;
+    bool gapActive = false;
     ip().onOpened = [&](const std::string& path, int flags) {
       if (gotFirst || (flags & O_ACCMODE) != O_RDONLY) return;
       auto pos = path.rfind('/');
@@ -130,12 +133,28 @@ int main(int argc, char** argv) {
     ip().onKill = [&](int, int) { return KillOutcome{0, 0}; };
     Oomd::ContextParams params;
     params.io_devs["8:0"] = Oomd::DeviceType::SSD;
+    params.io_devs["8:16"] = Oomd::DeviceType::HDD;
+    params.hdd_coeffs.readbw = 1;
     params.ssd_coeffs.readbw = 1;
     Oomd::OomdContext ctx(params);
     std::unique_ptr<Oomd::Engine::BasePlugin> pl(Oomd::getPluginRegistry().create(plugin));
     pl->setName(plugin);
     if (pl->initPlugin(args, Oomd::PluginConstructionContext(fs.root())) != 0) { fprintf(stderr, "init failed %s\n", plugin.c_str()); return 3; }
     std::map<std::string, long long> ioCum, pgCum;
+    // gap: on the middle tick one sibling's counter file cannot be read (or, io.stat, is cut short inside the second
+    // device line), so at the deciding tick it has NO sample of the previous tick: its io-cost rate is 0 and it has no
+    // pgscan rate at all - whatever it accumulated over the two ticks
+    int gapIdx = -1; std::string gapKind;
+    if ((plugin == "kill_by_io_cost" || plugin == "kill_by_pg_scan") && r.chance(45)) {
+      gapIdx = r.upto(n); gapKind = plugin == "kill_by_io_cost" && r.chance(50) ? "cut" : "unreadable";
+      S[gapIdx].io = 50 + r.upto(50); S[gapIdx].pg = 50 + r.upto(50);   // a big true increase: tempting if the stale sample is used
+    }
+    const std::string gapFile = plugin == "kill_by_io_cost" ? "io.stat" : "memory.stat";
+    ip().onOpen = [&](const std::string& path, int) -> int {
+      if (gapIdx < 0 || gapKind != "unreadable" || !gapActive) return 0;
+      std::string want = "/" + S[gapIdx].name + "/" + gapFile;
+      return path.size() >= want.size() && path.compare(path.size() - want.size(), want.size(), want) == 0 ? EACCES : 0;
+    };
     const int kTicks = 3; // 2 warm-up ticks at usage1, then the deciding tick
     for (int tick = 1; tick <= kTicks; tick++) {
       if (nested) {
@@ -158,7 +177,12 @@ int main(int argc, char** argv) {
         fs.write(s.name, "memory.swap.max", "max\n");
         fs.write(s.name, "memory.pressure", "some avg10=0.00 avg60=0.00 avg300=0.00 total=0\nfull avg10=" + hund(s.p10) + " avg60=" + hund(s.p60) + " avg300=0.00 total=0\n");
         ioCum[s.name] += tick < kTicks ? 1000 + r.upto(50) : s.io; pgCum[s.name] += tick < kTicks ? 500 + r.upto(50) : s.pg;
-        fs.write(s.name, "io.stat", "8:0 rbytes=" + std::to_string(ioCum[s.name]) + " wbytes=0 rios=0 wios=0 dbytes=0 dios=0\n");
+        {
+          std::string l0 = "8:0 rbytes=" + std::to_string(ioCum[s.name]) + " wbytes=0 rios=0 wios=0 dbytes=0 dios=0\n";
+          std::string l1 = "8:16 rbytes=0 wbytes=0 rios=0 wios=0 dbytes=0 dios=0\n";
+          bool cut = gapIdx >= 0 && gapKind == "cut" && (&s - &S[0]) == gapIdx && tick == kTicks - 1;
+          fs.write(s.name, "io.stat", cut ? l0 + "8:16 rbytes=0 wby" : l0 + l1);
+        }
         fs.write(s.name, "memory.stat", "anon 1\nfile 1\npgscan " + std::to_string(pgCum[s.name]) + "\n");
         fs.write(s.name, "cgroup.events", "populated 1\n");
         fs.write(s.name, "cgroup.procs", std::to_string(1000 + (&s - &S[0])) + "\n");
@@ -166,12 +190,14 @@ int main(int argc, char** argv) {
         if (s.pref == 1) fs.setXattr(s.name, "trusted.oomd_prefer", "1");
         if (s.pref == -1) fs.setXattr(s.name, "trusted.oomd_avoid", "1");
       }
+      gapActive = tick == kTicks - 1;
       ctx.refresh();
       ctx.bumpCurrentTick();
       pl->prerun(ctx);
       if (tick == kTicks || (plugin == "kill_by_pg_scan" && tick == kTicks - 1)) pl->run(ctx);
       vclockAdvance(1000);
     }
+    if (gapIdx >= 0) { S[gapIdx].io = 0; S[gapIdx].pg = 0; }
     std::vector<std::string> sj;
     for (auto& s : S)
       sj.push_back(J().str("name", s.name).num("pref", s.pref).num("usage", s.usage).num("prot", s.prot).num("avgn", s.usage1 * 7).num("avgd", 16)
@@ -179,9 +205,10 @@ int main(int argc, char** argv) {
     evEmit(J().str("e", "SReset").num("scn", scn).num("seed", (long long)seed));
     evEmit(J().str("e", "RankCase").str("U", std::to_string(U))
                .raw("P", J().str("plugin", plugin).num("thr", thr).num("P", P).num("rn", rn).num("rd", rd).boolean("biased", biased).num("sn", 1).num("sd", 2).done())
-               .raw("S", J::arr(sj)).boolean("nested", nested).str("first", first).raw("args", [&] { std::vector<std::string> kv; for (auto& [k, v] : args) kv.push_back(J::quote(k + "=" + v)); return J::arr(kv); }()));
+               .raw("S", J::arr(sj)).boolean("nested", nested).num("gap", gapIdx).str("gapKind", gapKind).str("first", first).raw("args", [&] { std::vector<std::string> kv; for (auto& [k, v] : args) kv.push_back(J::quote(k + "=" + v)); return J::arr(kv); }()));
     evEmit(J().str("e", "SEnd"));
-    ip().onOpened = nullptr; ip().onKill = nullptr;
+    ip().onOpened = nullptr; ip().onKill = nullptr; ip().onOpen = nullptr;
+    ::unlink(meminfoPath.c_str());
   }
   evFlush();
   _exit(0);
